@@ -370,6 +370,63 @@ def _case_cache_one(log, name, flag):
     log.path_stats(pm)
 
 
+def case_generic(log, names):
+    """is_singlet=None (generic continuation): every alternating / flagged sum equals the interpolation of its two parity versions
+    with eta = (-1)^N:  S(N; None) = (1+eta)/2 S(N; True) + (1-eta)/2 S(N; False)  (it reduces to the flagged sum at every integer),
+    through cache.get on an empty cache and through the direct w-functions."""
+    _encode(log, "cache.get", "cache.update_Sm1", "cache.update_Sm2", "polygamma.symmetry_factor")
+    for name in names:
+        log.register_replay("generic:%s" % name, (MOD, "replay_generic", {"name": name}), _sampler)
+
+        def run(name=name):
+            h, stub, consts = _setup()
+            c = h["cache"]
+            table = {}
+            for g in GFUNCS:
+                uf = UF(g, table)
+                E.rebind(h["g_functions"], g, uf)
+                if g in vars(c):
+                    E.rebind(c, g, uf)
+            N = _symN()
+            assume(N - 1, ">=0")
+            eta = (-1) ** N
+            idx = getattr(c, name)
+            vals = {f: c.get(idx, c.reset(), N, f) for f in (None, True, False)}
+            want = (1 + eta) / 2 * vals[True] + (1 - eta) / 2 * vals[False]
+            v = prove_zero(Cx.lift(vals[None]) - want, "cache.get(%s, N, is_singlet=None) == (1+eta)/2 * value(True) + (1-eta)/2 * value(False), eta = (-1)^N" % name)
+            E.decide(log, v, "generic:%s" % name, replay=(MOD, "replay_generic", {"name": name}), sampler=_sampler)
+            d = {f: _direct(h, name, N, f) for f in (None, True, False)}
+            want = (1 + eta) / 2 * d[True] + (1 - eta) / 2 * d[False]
+            v = prove_zero(Cx.lift(d[None]) - want, "direct %s(N, is_singlet=None) == (1+eta)/2 * value(True) + (1-eta)/2 * value(False), eta = (-1)^N" % name)
+            E.decide(log, v, "generic:%s" % name, replay=(MOD, "replay_generic", {"name": name, "direct": True}), sampler=_sampler)
+            v = prove_zero(Cx.lift(vals[None]) - d[None], "cache.get(%s, empty cache, N, None) == direct value" % name)
+            E.decide(log, v, "generic:%s" % name, replay=(MOD, "replay_generic", {"name": name}), sampler=_sampler)
+            E.twin(log)
+            _note_axioms(log, stub)
+
+        _r, pm = explore(run)
+        log.path_stats(pm)
+
+
+def replay_generic(point, name, direct=False):
+    from ekore.harmonics import cache as c
+
+    x = float(point.get("N", 3))
+    if x < 1:
+        return None
+    for N in (complex(round(x)), complex(round(x) + 1), complex(x), complex(x, 1.25)):
+        eta = (-1 + 0j) ** N
+        if direct:
+            v = {f: complex(_direct_real(name, N, f)) for f in (None, True, False)}
+        else:
+            v = {f: complex(c.get(getattr(c, name), c.reset(), N, f)) for f in (None, True, False)}
+        want = (1 + eta) / 2 * v[True] + (1 - eta) / 2 * v[False]
+        if abs(v[None] - want) > 1e-8 * max(1.0, abs(want)):
+            return {"detail": "%s %s at N=%r: is_singlet=None gives %r but the continuation with eta=(-1)^N=%r of the parity versions (True: %r, False: %r) is %r"
+                    % ("direct" if direct else "cache.get", name, N, v[None], eta, v[True], v[False], want)}
+    return None
+
+
 def _same(a, b):
     try:
         return (a - b).is_zero()
@@ -600,6 +657,7 @@ def main():
         "N a real symbol (N >= 0; N >= 1 in the cache cases); the identities are between rational expressions in N and the psi atoms, "
         "so they hold wherever the axioms do (all complex N off the poles)",
         "weights 1..5, alternating sums with is_singlet in {True, False} flipped across the step; recursive_harmonic_sum with 1..4 iterations",
+        "generic continuation is_singlet=None of all 11 flagged sums: equals the eta = (-1)^N interpolation of the two parity versions (cos/sin(pi N) atoms)",
         "cache: all 31 keys, is_singlet in {True, False} (None for keys that do not use the flag), one get() from an arbitrary valid cache "
         "(each slot read is symbolically empty or holds the directly computed value; paths = emptiness patterns of the slots read)",
         "replay: integers 0..60 against exact rational sums, complex points up to |Im N| = 60 against (N+1)^-k / mpmath polygamma",
@@ -607,7 +665,7 @@ def main():
     chk.out_of_claim = [
         "cern_polygamma itself (numerical approximation of psi_k): replaced by its contract",
         "the fitted Mellin transforms mellin_g3..g22 and the nested sums built on them as numbers (accuracy of the fits), the log_functions "
-        "lm1x vs their defining integrals, and the is_singlet=None branch ((-1)**N for non-integer symbolic N)",
+        "lm1x vs their defining integrals",
         "rounding of the float evaluation",
     ]
     chk.stubs = [
@@ -636,6 +694,8 @@ def main():
     for flag in (True, False):
         for i, g in enumerate(groups(flagged, 4)):
             chk.case("cache.flag.%s.%d" % ("even" if flag else "odd", i), case_cache, names=g, flag=flag)
+    for i, g in enumerate(groups(flagged, 2)):
+        chk.case("generic.%d" % i, case_generic, names=g)
     if H.tier() == "thorough":
         for flag in (True, False):
             for i, g in enumerate(groups(noflag, 3)):
